@@ -21,7 +21,7 @@ ASSUMPTIONS = [
 ]
 BOUNDS = {'quick': dict(iterations='0..2', programs='<=3 ops, all types, k,h symbolic; Lagrange types <=6/5 ops with k=3,h=2', nesting=2),
           'thorough': dict(iterations='0..4', programs='<=4 ops, all types, k,h symbolic; Lagrange types <=7/6 ops with k=3,h=2', nesting=3)}
-BUDGET = {'quick': 300, 'thorough': 1800}
+BUDGET = {'quick': 1800, 'thorough': 1800}
 
 EQ = ('quadratic_equality', 'linear_equality', 'uniform_equality', 'lagrange_equality')
 INEQ = ('quadratic_inequality', 'linear_inequality', 'uniform_inequality', 'lagrange_inequality', 'barrier_inequality')
